@@ -328,11 +328,11 @@ PROPERTIES = {
                  "idle periods OR a shrink took effect"),
         "assumptions": [],
         "jobs": _simjobs("C20", ["sim_ub", "sim_ubs", "sim_bb1k", "sim_ud"], quick_cases=250, thorough_cases=3000, extra=None) + [_rtjob("rt_ub", "C20", quick_cases=30, quick_procs=2), _rtjob("rt_ub_tsan", "C20", quick_cases=40)] + [
-            # thorough only: batches of 511-513 threads, and (second job) one batch of 65535-65537 short-lived threads per case
+            # thorough only: batches of 511-513 threads. (A job with one batch of 65535-65537 threads per case -- harness
+            # parameter huge_batches=1 -- is NOT registered: in a trial run it raised alarms on the unchanged tree that come
+            # from the harness itself, whose thread-id -> worker map is not sound once the kernel recycles thread ids.)
             {"bin": "sim_ubs", "params": {"prop": "C20", "big_batches": "1"}, "only_tier": "thorough",
-             "thorough": {"cases": 1500, "procs": 4, "maxlen": 1200}},
-            {"bin": "sim_ubs", "params": {"prop": "C20", "huge_batches": "1", "watchdog_ms": "240000"}, "only_tier": "thorough",
-             "thorough": {"cases": 24, "procs": 4, "maxlen": 300}}],
+             "thorough": {"cases": 1500, "procs": 4, "maxlen": 1200}}],
     },
     "C01": {
         "technique": "property-based testing: randomised C++11 memory-model simulation of the real queue code vs a FIFO model + happens-before race detector",
